@@ -1346,6 +1346,7 @@ func do_LOAD_CLASSDEREF(vm *Vm, i int32) error {
 	// Lookup in locals
 	if obj, ok := vm.frame.Locals[name]; ok {
 		vm.PUSH(obj)
+		return nil
 	}
 	// If that failed look at the cell
 	res := vm.frame.CellAndFreeVars[i].(*py.Cell).Get()
